@@ -1,34 +1,62 @@
 ------------------------------ MODULE Trickery ------------------------------
 (***************************************************************************)
 (* M6: the mode switch of stackscope._lowlevel (set_trickery_enabled, the   *)
-(* tri-state global, the self-test that caches its verdict).                *)
-(*   mode \in {"none", "on", "off"}     the global _can_use_trickery         *)
-(*   Set(t, v)      a thread calls set_trickery_enabled(v)                   *)
-(*   Extract(t)     a thread extracts: the implementation used is `mode`     *)
-(*                  if it is set; otherwise the self-test runs (it succeeds  *)
-(*                  on CPython), its verdict "on" is cached, and is used     *)
-(* History `acts` records, for every extraction, which implementation the    *)
-(* specification says was used.                                             *)
+(* tri-state global _can_use_trickery, the self-test that caches its        *)
+(* verdict), at the grain of the code:                                      *)
+(*                                                                         *)
+(*   set_trickery_enabled(v):   with _trickery_lock: mode = v               *)
+(*   _check_trickery_available():                                           *)
+(*       if mode is not None: return mode          -- Begin, lock-free      *)
+(*       with _trickery_lock:                      -- Acquire               *)
+(*           if mode is not None: return mode      -- Finish (re-check)     *)
+(*           mode = <self-test verdict>; return it -- Finish (probe)        *)
+(*                                                                         *)
+(*   mode \in {"none", "on", "off"}   the global                            *)
+(*   lock \in Thr \cup {"free"}       holder of _trickery_lock               *)
+(*   pc[t] \in {"idle", "want", "in"} where thread t's extraction stands    *)
+(*                                                                         *)
+(* A thread that wants the lock while another holds it simply is not        *)
+(* enabled (it blocks); set_trickery_enabled is one step because nothing    *)
+(* can be observed between its acquire and its release.                     *)
+(* NoRecheck = TRUE is the design WITHOUT the re-check under the lock       *)
+(* (kept to show that the property below is not vacuous: TLC finds the      *)
+(* lost update in it).                                                      *)
+(* History `acts` records every step; an extraction's record carries the    *)
+(* implementation the specification says it used.                           *)
 (***************************************************************************)
 EXTENDS Naturals, Sequences, TLC, Json
 
-CONSTANTS Thr, MaxSteps
-VARIABLES mode, acts
-vars == <<mode, acts>>
-Init == mode = "none" /\ acts = <<>>
-Set(t, v) == /\ Len(acts) < MaxSteps /\ mode' = v
-             /\ acts' = Append(acts, [t |-> t, a |-> "set", v |-> v, used |-> "-"])
-Extract(t) == /\ Len(acts) < MaxSteps
-              /\ LET used == IF mode = "none" THEN "on" ELSE mode IN
-                 /\ mode' = used           \* auto-detection caches its verdict
-                 /\ acts' = Append(acts, [t |-> t, a |-> "extract", v |-> "-", used |-> used])
-Next == \E t \in Thr : Extract(t) \/ (\E v \in {"none", "on", "off"} : Set(t, v))
-Spec == Init /\ [][Next]_vars
+CONSTANTS Thr, MaxSteps, NoRecheck
+VARIABLES mode, lock, pc, acts
+vars == <<mode, lock, pc, acts>>
+Init == mode = "none" /\ lock = "free" /\ pc = [t \in Thr |-> "idle"] /\ acts = <<>>
+Rec(t, a, v, used) == Len(acts) < MaxSteps /\ acts' = Append(acts, [t |-> t, a |-> a, v |-> v, used |-> used])
 
-\* set_trickery_enabled(True/False) takes effect for the next extraction on ANY thread; None restores auto-detection
+Set(t, v) == /\ pc[t] = "idle" /\ lock = "free" /\ mode' = v /\ UNCHANGED <<lock, pc>> /\ Rec(t, "set", v, "-")
+\* the lock-free check: with a setting in place the extraction uses it at once
+Begin(t) == /\ pc[t] = "idle"
+            /\ IF mode # "none" THEN UNCHANGED <<mode, lock, pc>> /\ Rec(t, "extract", "-", mode)
+               ELSE pc' = [pc EXCEPT ![t] = "want"] /\ UNCHANGED <<mode, lock>> /\ Rec(t, "begin", "-", "-")
+Acquire(t) == /\ pc[t] = "want" /\ lock = "free" /\ lock' = t /\ pc' = [pc EXCEPT ![t] = "in"] /\ UNCHANGED mode
+              /\ Rec(t, "acquire", "-", "-")
+\* under the lock: a setting made meanwhile wins; otherwise the self-test runs (it succeeds on CPython) and is cached
+Finish(t) == /\ pc[t] = "in"
+             /\ LET used == IF mode # "none" /\ ~NoRecheck THEN mode ELSE "on" IN
+                /\ mode' = used /\ lock' = "free" /\ pc' = [pc EXCEPT ![t] = "idle"] /\ Rec(t, "finish", "-", used)
+Next == \E t \in Thr : Begin(t) \/ Acquire(t) \/ Finish(t) \/ (\E v \in {"none", "on", "off"} : Set(t, v))
+Spec == Init /\ [][Next]_vars
+View == <<mode, lock, pc>>
+
+TypeOK == /\ mode \in {"none", "on", "off"} /\ lock \in Thr \cup {"free"}
+          /\ \A t \in Thr : pc[t] \in {"idle", "want", "in"}
+LockDiscipline == /\ \A t \in Thr : (pc[t] = "in") <=> (lock = t)
+\* set_trickery_enabled(True/False) takes effect for the subsequent extractions on ANY thread; None restores auto-detection:
+\* an extraction uses the most recent setting made before it decided (its own auto-detection verdict if that was None)
 RECURSIVE LastSet(_)
 LastSet(k) == IF k = 0 THEN "none" ELSE IF acts[k].a = "set" THEN acts[k].v ELSE LastSet(k - 1)
-SetTakesEffect == \A k \in 1..Len(acts) : acts[k].a = "extract" =>
+SetTakesEffect == \A k \in 1..Len(acts) : acts[k].a \in {"extract", "finish"} =>
                      acts[k].used = (IF LastSet(k - 1) = "none" THEN "on" ELSE LastSet(k - 1))
+\* an explicit setting is only ever replaced by another call of set_trickery_enabled, never by the self-test
+ExplicitSettingSurvives == [][(mode # "none" /\ mode' # mode) => acts'[Len(acts')].a = "set"]_vars
 Emit == (Len(acts) = MaxSteps) => PrintT(<<"EMIT", ToJson([acts |-> acts])>>)
 =============================================================================
